@@ -8,5 +8,6 @@ const vectorsCompiled = false
 
 func (e *Exec) execVec(c *Cmd, sl *slots) (string, bool, bool) { return "", false, false }
 func (e *Exec) vecArmFault(op string, n int)                   {}
+func (e *Exec) vecArmHook(op string, n int, f func())          {}
 func (e *Exec) vecAfterFault() string                          { return "" }
 func (e *Exec) vecFired(op string, n int) bool                 { return false }
